@@ -1,7 +1,7 @@
 (** Property C01 — theorems only.  [run] is the reference semantics (Core.Sem); the extracted [run] is
     the oracle of the failing-input search in harness/props/C01.py. *)
 From Coq Require Import ZArith List Bool.
-From Core Require Import Syntax Sem Equiv PartialEval PartialEvalSound Subst RewriteAt ShiftLoop DivideLoop FissionFuse ReorderLoops RewriteAtL RemoveLoop.
+From Core Require Import Syntax Sem Equiv PartialEval PartialEvalSound Subst RewriteAt ShiftLoop DivideLoop FissionFuse ReorderLoops RewriteAtL RemoveLoop UnrollLoop.
 Import ListNotations.
 Local Open Scope Z_scope.
 
@@ -306,3 +306,9 @@ Theorem C01_rewrite_everywhere_list : forall f ok,
   forall p, RewriteAtL.okl_proc f ok p = true -> preserves p (RewriteAtL.rwl_proc f p).
 Proof. intros f ok H p Hok inp bufs cfg. apply RewriteAtL.rwl_proc_preserves with (ok := ok); assumption. Qed.
 Print Assumptions C01_rewrite_everywhere_list.
+
+(** unroll_loop on the whole procedure, for every state (no freshness hypothesis on the environment) *)
+Theorem C01_unroll_proc : forall i p,
+  UnrollLoop.unroll_ok_proc i p = true -> preserves p (UnrollLoop.unroll_proc i p).
+Proof. intros i p H inp bufs cfg. apply UnrollLoop.unroll_proc_preserves, H. Qed.
+Print Assumptions C01_unroll_proc.
